@@ -140,11 +140,14 @@ static SigP build(CaseBuild &cb, const std::vector<std::string> &t) {
 	}
 	if (op == "extto" || op == "extby" || op == "extred") {
 		const std::string &p = t.at(1); uint64_t n = N(2);
+		// the named frontend functions zext / oext / sext / ext are called (not the three-argument ext with an explicit policy)
+#define EXTCALL(W) do { if (p == "d") RET(ext(a, W)); else if (p == "z") RET(zext(a, W)); else if (p == "o") RET(oext(a, W)); else if (p == "s") RET(sext(a, W)); else throw std::runtime_error("bad policy " + p); } while (0)
 		return un(R(3), [&](const auto &a) -> SigP {
-			if (op == "extto") { BitWidth w{n}; if (p == "d") RET(ext(a, w)); else RET(ext(a, w, polOf(p))); }
-			else if (op == "extby") { BitExtend w{n}; if (p == "d") RET(ext(a, w)); else RET(ext(a, w, polOf(p))); }
-			else { BitReduce w{n}; if (p == "d") RET(ext(a, w)); else RET(ext(a, w, polOf(p))); }
+			if (op == "extto") { BitWidth w{n}; EXTCALL(w); }
+			else if (op == "extby") { BitExtend w{n}; EXTCALL(w); }
+			else { BitReduce w{n}; EXTCALL(w); }
 		});
+#undef EXTCALL
 	}
 	if (op == "slice") { size_t off = N(1); BitWidth w{N(2)}; return un(R(3), [&](const auto &a) -> SigP { RET(a(off, w)); }); }
 	if (op == "upper") { BitWidth w{N(1)}; return un(R(2), [&](const auto &a) -> SigP { RET(a.upper(w)); }); }
